@@ -284,8 +284,13 @@ class ProgramSet(NamedItem):
         for par in self.pars:
             for pop in self.pops:
                 if (par, pop) in self.covouts and code_name in self.covouts[(par, pop)].progs:
-                    del self.covouts[(par, pop)].progs[code_name]
-                    self.covouts[(par, pop)].update_outcomes()  # Refresh the cached outcomes, which still contain the removed program
+                    covout = self.covouts[(par, pop)]
+                    del covout.progs[code_name]
+                    if covout._interactions:
+                        # Explicit interaction outcomes that involve the removed program no longer apply
+                        covout._interactions = {k: v for k, v in covout._interactions.items() if code_name not in k}
+                        covout.imp_interaction = ",".join("%s=%.16g" % ("+".join(k), v + covout.baseline) for k, v in covout._interactions.items()) or None
+                    covout.update_outcomes()  # Refresh the cached outcomes, which still contain the removed program
 
     def add_pop(self, code_name: str, full_name: str, pop_type: str = None) -> None:
         """
